@@ -114,7 +114,7 @@ var c13MalformedList []c13Malformed
 
 func init() {
 	c13BuildPairs()
-	for _, op := range []string{"put", "get", "update", "delete", "batchwrite", "batchget", "put-cond-false", "update-cond-false", "delete-cond-false", "put-cond-true"} {
+	for _, op := range []string{"put", "get", "update", "delete", "batchwrite", "batchget", "put-cond-false", "update-cond-false", "delete-cond-false", "put-cond-true", "query-start-key", "scan-start-key"} {
 		for _, d := range []string{"missing-hash", "missing-range", "empty-key", "hash-empty-value", "range-empty-value"} {
 			c13MalformedList = append(c13MalformedList, c13Malformed{op, d})
 		}
@@ -491,6 +491,17 @@ func (p *c13) malformed(x *res, adapter string, ctx *runner.Ctx) {
 			op.Cond = "attribute_exists(nosuchattr)"
 		case "delete-cond-false":
 			op = adapt.Op{Kind: adapt.OpDelete, Table: spec.Name, Key: key, Cond: "attribute_exists(nosuchattr)"}
+		case "query-start-key", "scan-start-key":
+			// an ExclusiveStartKey is a key of the request like any other: one that cannot be located is refused,
+			// it does not silently turn the read into one that starts from the beginning
+			if mf.defect == "empty-key" {
+				continue // no start key at all
+			}
+			if mf.op == "scan-start-key" {
+				op = adapt.Op{Kind: adapt.OpScan, Table: spec.Name, Start: key}
+			} else {
+				op = adapt.Op{Kind: adapt.OpQuery, Table: spec.Name, KeyCnd: "h = :h", Values: val.Item{":h": val.Str("a")}, Start: key}
+			}
 		case "batchwrite":
 			it := key.Clone()
 			it["v"] = val.Num("2")
